@@ -93,10 +93,28 @@ def mc_cases(chk, scope, emit=True, timeout=1500):
     return cases
 
 
-def random_cases(rng, nschemas, nvalues, depth=3):
+def wide_enum_cases():
+    """enums whose largest enumerator sits at / next to a power of two far beyond 8 bits, between two sub-byte fields;
+    one case per enumerator (widths computed in floating point go wrong from 2^49 on)"""
     out = []
+    for k in (8, 15, 16, 31, 32, 33, 47, 48, 49, 50, 51, 52, 53, 54, 55, 60, 62, 63):
+        for j, top in enumerate(((1 << k), (1 << k) + 1, (1 << k) + 2, (1 << (k + 1)) - 1, (1 << (k + 1)) - 2)):
+            if top >= (1 << 64):
+                continue
+            vals = [0, 1, top] if j % 2 == 0 else [top, 3, 0]          # the largest enumerator last / first
+            en = {"name": "Ea", "items": [{"name": "Xa%d" % i, "value": randgen.int_to_abs(v)} for i, v in enumerate(vals)]}
+            sch = {"structs": [{"name": "Sa", "fields": [{"name": "fa", "id": 0, "type": {"k": "u", "w": 3}},
+                                                         {"name": "fb", "id": 1, "type": {"k": "enum", "name": "Ea"}},
+                                                         {"name": "fc", "id": 2, "type": {"k": "u", "w": 5}}]}], "enums": [en]}
+            for it in en["items"]:
+                out.append({"schema": sch, "root": "Sa", "value": {"fa": randgen.int_to_abs(5), "fb": it["value"], "fc": randgen.int_to_abs(21)}})
+    return out
+
+
+def random_cases(rng, nschemas, nvalues, depth=3):
+    out = wide_enum_cases()
     for _ in range(nschemas):
-        sch = randgen.rand_schema(rng, depth=depth)
+        sch = randgen.rand_schema(rng, depth=depth, wide_enums=True)
         for st in sch["structs"]:
             for _ in range(nvalues):
                 out.append({"schema": sch, "root": st["name"],
